@@ -326,7 +326,8 @@ def option_cases(ctx, script, judge, cov, dist):
                 files[os.path.relpath(fp, cd)] = open(fp, "rb").read().decode("latin-1")
         return {"rc": p.returncode, "err": err[-300:], "out": out, "files": files}
 
-    # ---- is F19-DIRZERO repaired?  is F19-DIRLABEL repaired?  (probed: the model mirrors either form)
+    # ---- the model's default is the script since 8474bb4 (`defined $opt_d`); probe for the older truth test (F19-DIRZERO, a
+    # `fixed` finding: `-d 0` is then reported as a VIOLATION).  Is F19-DIRLABEL (open) repaired?  (probed)
     cd = os.path.join(work, "probe0")
     prepare(cd, "0", "dir")
     r0 = observe(cd, ["-d", "0"], inp, "0")
@@ -352,7 +353,7 @@ def option_cases(ctx, script, judge, cov, dist):
                 k += 1
                 prepare(cd, dname, state)
                 ocases.append((flags, dname, state, argv, cd))
-                olines.append("o %d %s %s %s\n" % (fix_d0, flags or "-", "~" if dname is None else (hx(dname) if dname else "-"),
+                olines.append("o %s %s %s %s\n" % ("d" if fix_d0 else "t", flags or "-", "~" if dname is None else (hx(dname) if dname else "-"),
                                                    state))
     answers = ctx.model("dshbak", "".join(olines), args=["model"])
     dist["option_plans"] = {}
